@@ -55,6 +55,31 @@ def idom_component(tag):
             "nontrivial": lambda l: "(assume" in l and ("(join" in l or "(widen" in l or "(meet" in l),
             "accept": (lambda tag: lambda v, req, msg: tag in msg or v == "DRIFT")(tag)}
 
+DOM2_DOMAINS = {27: "vpart-intervals", 28: "pvpart-sdbm", 29: "uf", 30: "packing-sdbm", 31: "packing-soct-safe",
+ 32: "rgn-intervals", 33: "rgn-flat-bool-intervals", 34: "flat-bool-sdbm-safe", 35: "flat-bool-soct-safe", 36: "flat-bool-term-intervals",
+ 37: "flat-bool-ric", 38: "term-dis-intervals", 39: "term-sparse-dbm", 40: "product-intervals-congruences", 41: "product-sdbm-safe-dis-intervals",
+ 42: "rproduct-intervals-sdbm-safe", 43: "powerset-sdbm-safe", 44: "powerset-flat-bool-intervals", 45: "array-adaptive-flat-bool-intervals",
+ 46: "array-smashing-flat-bool-sparse-dbm", 47: "array-adaptive-term-intervals", 48: "powerset-array-adaptive-intervals", 49: "flat-boolean",
+ 50: "split-oct-int64", 51: "lookahead-flat-bool-sdbm-safe", 52: "generic-wrapper-flat-bool-intervals", 53: "fixed-tvpi-soct-safe",
+ 54: "flat-bool-dis-intervals", 55: "flat-bool-product-term-sdbm-safe", 56: "flat-bool-constants", 57: "powerset-dis-intervals"}
+
+def dom2_components(tag, quick, thorough, ids=None):
+    allids = sorted(set(DOMAINS) | set(DOM2_DOMAINS))
+    return [{"harness": f"h_dom2_{d}", "source": "h_dom2", "defines": [f"-DVDOM={d}"], "quick": quick, "thorough": thorough,
+             "shards": 1, "corpus": "h_dom2",
+             "nontrivial": lambda l: ("(bassume" in l or "(cast" in l or "(entails" in l) and ("(join" in l or "(widen" in l or "(meet" in l),
+             "accept": (lambda tag: (lambda v, req, msg: tag in msg or v == "DRIFT"))(tag)} for d in (ids or allids)]
+
+WCHAIN_IDS = [1, 2, 3, 4, 5, 6, 7, 8, 9, 10, 11, 12, 13, 14, 15, 16, 17, 18, 19, 20, 21, 22, 24, 25, 26]
+def wchain_components(quick=150, thorough=3000):
+    acc = lambda v, req, msg: "[C05]" in msg or v in ("DRIFT", "BAD")
+    nt = lambda l: (lambda m: bool(m) and m.group(1).count("0") >= 2)(re.search(r"\(st ([01]+)\)", l))
+    cs = [{"harness": f"h_widen_{d}", "source": "h_widen", "defines": [f"-DVDOM={d}"], "quick": quick, "thorough": thorough,
+           "shards": 1, "corpus": "h_widen", "nontrivial": nt, "accept": acc} for d in WCHAIN_IDS]
+    cs.append({"harness": "h_widen_scalar", "source": "h_widen", "defines": ["-DWSCALAR=1"], "quick": 1500, "thorough": 60000,
+               "shards": 1, "nontrivial": nt, "accept": acc})
+    return cs
+
 DOM_RULE = ("operation histories (6-34 ops quick, up to 66 thorough, after a seeding phase) over a pool of 4 abstract values and 5 integer variables: "
             "assign / arith / bitwise / assume (in-language and general linear constraints, strict, disequations, non-unit coefficients) / select / forget / project / rename / expand / "
             "join / meet / widen / narrow / in-place join, meet / copy / normalize / minimize; replayed by the driver on <=40 concrete witness states per value "
@@ -108,14 +133,14 @@ PROPS = {
     "C03": {
         "level": "proof",
         "lean_modules": ["CrabProofs.Props.C03", "CrabProofs.Props.C03Itv"],
-        "components": [idom_component("[C03]")] + dom_components("[C03]", 900, 12000),
+        "components": [idom_component("[C03]")] + dom_components("[C03]", 900, 12000) + dom2_components("[C03]", 400, 6000),
         "rule": DOM_RULE, "assumptions": DOM_ASSUME,
         "trusted_base": COMMON_TB + ["driver concrete semantics: lean/Driver/DomH.lean (definitions of the witness replay and of membership)"],
     },
     "C04": {
         "level": "proof",
         "lean_modules": ["CrabProofs.Props.C04", "CrabProofs.Props.C04Itv"],
-        "components": [idom_component("[C04]")] + dom_components("[C04]", 700, 10000),
+        "components": [idom_component("[C04]")] + dom_components("[C04]", 700, 10000) + dom2_components("[C04]", 300, 5000),
         "rule": DOM_RULE + "; C04 adds: all ordered pairs of the final pool for <=, x<=x, bot<=x, x<=top, is_bottom(bottom), is_top(top), is_top/is_bottom after set_to_*",
         "assumptions": DOM_ASSUME,
         "trusted_base": COMMON_TB + ["driver concrete semantics: lean/Driver/DomH.lean"],
@@ -124,7 +149,7 @@ PROPS = {
         "level": "proof",
         "lean_modules": ["CrabProofs.Props.C16", "CrabProofs.Props.C16Cow"],
         "tables": [cow_methods.gen_cow_methods],
-        "components": dom_components("[C16]", 700, 10000),
+        "components": dom_components("[C16]", 700, 10000) + dom2_components("[C16]", 300, 5000),
         "rule": DOM_RULE + "; C16: after every operation on one value the full dump (is_bottom, is_top, at(v), constraints) of every other pool value must be unchanged; copies are made by the copy constructor and copy assignment",
         "assumptions": DOM_ASSUME,
         "trusted_base": COMMON_TB,
@@ -132,7 +157,7 @@ PROPS = {
     "C01": {
         "level": "proof",
         "lean_modules": ["CrabProofs.Props.C01Engine", "CrabProofs.Props.C01Prog"],
-        "components": [FIX_COMPONENT] + prog_components("[C01]", 500, 6000),
+        "components": [FIX_COMPONENT] + prog_components("[C01]", 500, 6000) + prog_components("[C01]", 250, 3000, ids=(15, 17, 13)),
         "rule": "(1) iterator harness as C06: random CFGs x relations x start blocks x assumption maps x delay/descending x widening/narrowing modes; every table entry of the real iterator must contain the Kleene least solution. (2) " + PROG_RULE,
         "assumptions": ["the statement->operation mapping of intra_abs_transformer, liveness pruning and thresholds are covered by the program harness (tested), the engine and the interval domain by theorems; the Sem contract of the other shipped domains is tested (C03 history harness + program harness)",
                         ],
@@ -140,10 +165,10 @@ PROPS = {
     },
     "C05": {
         "level": "proof",
-        "lean_modules": ["CrabProofs.Props.C05", "CrabProofs.Props.C05Itv"],
-        "components": [dict(FIX_COMPONENT, timeout=600)],
-        "rule": "same iterator harness as C06; every run is executed under a wall-clock watchdog; the model needs finite fuel on every generated CFG",
-        "assumptions": ["widening chain condition of each shipped domain is not yet proved (interval widening proof pending); analysis-level termination is proved for every value type satisfying WellFounded (WidenStep)"],
+        "lean_modules": ["CrabProofs.Props.C05", "CrabProofs.Props.C05Itv", "CrabProofs.Props.C05Chain"],
+        "components": [dict(FIX_COMPONENT, timeout=600)] + wchain_components(),
+        "rule": "(1) same iterator harness as C06; every run is executed under a wall-clock watchdog; the model needs finite fuel on every generated CFG. (2) widening chains x_i = x_{i-1} widen y_i over 25 shipped domain instantiations and the wrapped_interval scalar (all widths): y_i independent values, loop-body images F(x_{i-1}) and F(x_{i-1}) | x0; plain widening, widening_thresholds with random threshold sets, delayed widening; adversarial sequences (ever-growing bounds, alternating variables, new relations, constants jumping over thresholds) and realistic loop bodies; every witness of both arguments must satisfy the result, the chain must reach a stationary suffix within 60-300 steps; narrowing of decreasing pairs must keep the second argument's states; non-trivial = at least two non-stationary steps",
+        "assumptions": ["the widening chain condition is proved for intervals, the interval domain, congruences, constants and signs; for the other shipped domains it is tested by the chain harness (no stationary suffix within N steps is reported, a run cannot prove non-termination)", "inter-procedural recursion loops are only exercised by the C09 harness under its watchdog"],
         "trusted_base": COMMON_TB + ["model: CrabModel/Fix/Interleaved.lean"],
     },
     "C13": {
@@ -232,7 +257,7 @@ PROPS = {
     "C02": {
         "level": "proof",
         "lean_modules": ["CrabProofs.Props.C02"],
-        "components": prog_components("[C02]", 500, 6000),
+        "components": prog_components("[C02]", 500, 6000) + prog_components("[C02]", 250, 3000, ids=(13, 16, 17, 15)),
         "rule": PROG_RULE,
         "assumptions": ["concrete semantics of DESIGN.md 2.3; executions that hit an operation crab gives no meaning to are not counted", "the inter-procedural checker is covered by C09's harness"],
         "trusted_base": COMMON_TB + ["semantics: CrabModel/IR/{Syntax,Semantics}.lean; checker model: CrabModel/Analysis/Checker.lean"],
